@@ -179,11 +179,12 @@ fn run_concurrent(plan: &Plan, keep_trace: bool) -> (crate::simenv::SchedResult,
         threads: plan.threads.len(),
         seed: plan.seed,
         strategy: plan.strategy,
-        max_steps: 400 * n_ops + 20_000,
+        max_steps: 2_000 * n_ops + 50_000,
         replay: plan.schedule.clone(),
         read_yield: plan.read_yield,
         keep_trace,
         expected_steps: 8 * n_ops + 4,
+        stmt_points: plan.stmt_points,
     };
     let sr = sim().run_threads(cfg, bodies);
     let outcomes = std::mem::take(&mut *results.lock().unwrap_or_else(|e| e.into_inner()));
